@@ -421,6 +421,15 @@ func getTcbInfo(fmspc string, getter trust.HTTPSGetter, collateral *Collateral) 
 			Msg: err.Error(),
 		}
 	}
+	// Only the values inside the signed member may drive the verdict: json.Unmarshal of the whole
+	// body matches keys case-insensitively and lets a later duplicate win.
+	var signedTcbInfo pcs.TcbInfo
+	if err := json.Unmarshal(tcbInfoRawBody, &signedTcbInfo); err != nil {
+		return &trust.AttestationRecreationErr{
+			Msg: fmt.Sprintf("unable to unmarshal tcbInfo member: %v", err),
+		}
+	}
+	collateral.TdxTcbInfo.TcbInfo = signedTcbInfo
 	collateral.TcbInfoBody = tcbInfoRawBody
 	return nil
 }
@@ -456,6 +465,14 @@ func getQeIdentity(getter trust.HTTPSGetter, collateral *Collateral) error {
 			Msg: err.Error(),
 		}
 	}
+	// Only the values inside the signed member may drive the verdict.
+	var signedQeIdentity pcs.EnclaveIdentity
+	if err := json.Unmarshal(qeIdentityRawBody, &signedQeIdentity); err != nil {
+		return &trust.AttestationRecreationErr{
+			Msg: fmt.Sprintf("unable to unmarshal enclaveIdentity member: %v", err),
+		}
+	}
+	collateral.QeIdentity.EnclaveIdentity = signedQeIdentity
 	collateral.EnclaveIdentityBody = qeIdentityRawBody
 	return nil
 }
